@@ -79,6 +79,7 @@ fn suite_board(cx: &mut Ctx, tier: &str, shard: usize, nshards: usize, variant: 
     family_ep_boxed(&mut frng, tier_n(tier, 1200, 12000), &mut fam);
     let before_defects = fam.len();
     family_rights_defects(&mut fam);
+    family_ep_defects(&mut fam);
     let n_defects = fam.len() - before_defects;
     let stride = tier_n(tier, 6, 1);
     let off = cx.rng.below(stride);
@@ -499,6 +500,16 @@ fn suite_str(w: &mut dyn Write, tier: &str, seed: u64, shard: usize, nshards: us
         };
         n += 1;
         writeln!(w, "S|id=s{}_{}|in={}|{}", shard, n, hex(&s), parse_obs(&s)).unwrap();
+    }
+    // FEN: the single-defect families first (rights and en-passant defects), as harness-written FEN
+    let mut defects: Vec<Desc> = vec![];
+    family_rights_defects(&mut defects);
+    family_ep_defects(&mut defects);
+    for (i, d) in defects.iter().enumerate() {
+        if i % nshards != shard { continue }
+        let s = d.to_fen();
+        n += 1;
+        writeln!(w, "F|id=s{}_{}|in={}|{}", shard, n, hex(&s), fen_obs(&s)).unwrap();
     }
     // FEN: valid, grammar-ish and mutated
     let nf = tier_n(tier, 6000, 200000) / nshards;
